@@ -26,7 +26,7 @@ QUERY_STRUCTS = [
     (QB, "prepare_with_query_clause_common_table", "crate::query::with::CommonTableExpression", ()),
     (QB, "prepare_select_expr", "crate::query::select::SelectExpr", ()),
     (QB, "prepare_join_expr", "crate::query::select::JoinExpr", ()),
-    (QB, "prepare_order_expr", "crate::query::ordered::OrderExpr", ()),
+    (QB, "prepare_order_expr", "crate::types::OrderExpr", ()),
     (QB, "prepare_window_statement", "crate::query::window::WindowStatement", ()),
     (QB, "prepare_select_lock", "crate::query::select::LockClause", ()),
     (QB, "prepare_on_conflict", "crate::query::on_conflict::OnConflict", ()),
@@ -163,6 +163,8 @@ def check_fields(run, rule, f, cfg, dialect, registry, unsupported, guards_ok):
         trait, method, adt, prefix = entry[:4]
         only = entry[4] if len(entry) > 4 else None
         if adt not in f.adts:
+            if not adt.startswith("crate::extension::"):
+                run.anchor(rule, "struct:" + adt, "statement struct of the registry not found in this configuration", cfg)
             continue
         target = linker.resolve(trait + "::" + method)
         if target is None:
@@ -1057,4 +1059,79 @@ def check_hooks(run, rule, f, cfg, select=None):
             run.anchor(rule, "hook:" + k, "inner renderer %s of specs/hooks.json is not called anywhere" % k, cfg)
         elif not overridden.get(e["hook"]):
             run.notes.append("hook %s is not overridden by any backend in config %s" % (e["hook"], cfg))
+    return n
+
+
+# ---- element sites --------------------------------------------------------------------------------------------------------
+
+_ADT_RE = re.compile(r"crate::[A-Za-z_0-9:]+")
+
+
+def statement_structs(f):
+    """named-field structs reachable from the statement structs of the registries through field types"""
+    seen = set()
+    todo = [e[2] for e in QUERY_STRUCTS + SCHEMA_STRUCTS]
+    while todo:
+        a = todo.pop()
+        if a in seen or a not in f.adts:
+            continue
+        seen.add(a)
+        for v in f.adts[a]["variants"]:
+            for fl in v["fields"]:
+                ty = fl.get("ty") if isinstance(fl.get("ty"), str) else f.ty(fl.get("ty"))
+                for m in _ADT_RE.findall(ty or ""):
+                    if m in f.adts and m not in seen:
+                        todo.append(m)
+    return {a for a in seen if f.adts[a].get("kind") == "struct" and f.adts[a]["variants"][0]["fields"]
+            and not f.adts[a]["variants"][0]["fields"][0]["name"].isdigit()}
+
+
+def check_element_sites(run, rule, f, cfg, select=None):
+    """every place where a renderer takes an element of a statement apart (a non-parameter local whose type is a
+    statement struct) hands it whole to another renderer or reads every field of it"""
+    reviewed = load_table("element_sites.json")
+    structs = statement_structs(f)
+    n = 0
+    for name, fn in f.fns.items():
+        if fn.get("hir") is None or not (name.startswith("crate::backend::") or "::extension::" in name):
+            continue
+        if select is not None and not select(name):
+            continue
+        params = {p["pat"].get("id") for p in fn["params"] if p["pat"].get("k") == "bind"}
+        locs = {}
+        for nd in walk(fn["hir"]):
+            if nd.get("k") == "local" and nd.get("id") not in params:
+                ty = (f.ty(nd.get("ty")) or "").lstrip("&")
+                if ty.startswith("mut "):
+                    ty = ty[4:]
+                if ty in structs:
+                    locs.setdefault((nd["id"], nd["name"], ty), nd.get("sp"))
+        short = name.rsplit("::", 1)[-1]
+        for (lid, lname, ty), sp in sorted(locs.items(), key=lambda x: str(x[0])):
+            fields = set()
+            whole = False
+            for nd in walk(fn["hir"]):
+                if nd.get("k") == "field":
+                    b = H.peel_ref(nd["base"])
+                    if isinstance(b, dict) and b.get("k") == "local" and b.get("id") == lid:
+                        fields.add(nd["name"])
+                elif nd.get("k") in ("call", "mcall"):
+                    args = ([nd["recv"]] if nd.get("k") == "mcall" else []) + list(nd.get("args") or [])
+                    for a in args:
+                        pa = H.peel_ref(a)
+                        if isinstance(pa, dict) and pa.get("k") == "local" and pa.get("id") == lid:
+                            whole = True
+            n += 1
+            sname = ty.rsplit("::", 1)[-1]
+            if whole:
+                run.ob(rule, "element:%s:%s:%s" % (fn_backend(name), short, lname), True,
+                       "%s: the %s bound as `%s` is handed whole to another renderer" % (short, sname, lname), sp=sp, cfg=cfg, trivial=True)
+                continue
+            for fl in [x["name"] for x in f.adts[ty]["variants"][0]["fields"]]:
+                key = "%s:%s:%s.%s" % (short, lname, sname, fl)
+                ok = fl in fields
+                run.ob(rule, "element-field:%s:%s" % (fn_backend(name), key), ok or key in reviewed,
+                       "%s: field %s.%s of the element bound as `%s` is %s" % (
+                           short, sname, fl, lname, "read" if ok else ("not read here - " + reviewed[key]) if key in reviewed else
+                           "never read at this site: this part of the element is dropped for every element rendered here"), sp=sp, cfg=cfg)
     return n
